@@ -129,6 +129,7 @@ def run_unit(name, keep_smt2=2):
     # in some finite scope - a contradictory precondition / invariant / lemma instance would make every obligation trivial
     import os as _os
 
+    cover_skipped = []
     if _os.environ.get("UJVC_TIER") == "thorough" and res.status == "ok":
         covered = 0
         for p in paths:
@@ -140,10 +141,17 @@ def run_unit(name, keep_smt2=2):
                 continue
             covered += 1
             v, m, k = core.refute_finite(pc, core.z3.BoolVal(False), kmax=6)
-            ob = core.Obligation(name=f"{name}/cover:path-condition-satisfiable-in-a-finite-scope", pc=[], goal=bool(v == "refuted"), props=tuple(u.props),
-                                 path=tuple(p.labels), info=f"finite-scope model search: {v} (K={k})")
-            ob.backend = "z3-finite-scope"
-            obs.append(ob)
+            if v == "refuted":     # a model of the assumptions exists: the path's obligations are not vacuous
+                ob = core.Obligation(name=f"{name}/cover:path-condition-satisfiable-in-a-finite-scope", pc=[], goal=True, props=tuple(u.props),
+                                     path=tuple(p.labels), info=f"finite-scope model found (K={k})")
+                ob.backend = "z3-finite-scope"
+                obs.append(ob)
+            elif m.startswith("no finite-scope expansion"):
+                # quantifiers over Int (positions of a symbolic sequence) cannot be expanded: the cover is not applicable to this path
+                cover_skipped.append(f"{p.labels}: {m}")
+            else:
+                # no model up to K = 6: possibly contradictory assumptions - a vacuity ALARM about the sidecar, never a verdict about the code
+                res.status, res.message = "undecided", f"vacuity guard: the assumptions of path {p.labels} have no finite-scope model up to K={k} ({v})"
     kept = 0
     for ob in obs:
         want = kept < keep_smt2 and not isinstance(ob.goal, bool)
